@@ -60,6 +60,10 @@ type params struct {
 	// Head, when set, replaces the first bytes of both payloads: line-ending and white-space bytes
 	// right behind the login lines are where a "tolerant" login reader would eat payload.
 	Head []byte `json:"head,omitempty"`
+	// IdleMS (idle leg): the second half of both payloads is written this long after the dial began
+	// (default: dial timeout + 1.5 s). Long values find deadlines that either end left armed on the
+	// connection after login (they only show once their time has passed).
+	IdleMS int `json:"idle_ms,omitempty"`
 }
 
 const (
@@ -163,6 +167,16 @@ func plan(seed int64, tier string) []vrt.Case {
 	for i, api := range []string{"timeout", "ctx", "url", "dialer", "urlctx"} {
 		add(params{Leg: "idle", API: api, Call: []byte("LA1B"), PW: []byte("x"), CallClass: "realistic", PWClass: "realistic",
 			NC2S: 2000, NS2C: 2000, Seed: int64(500 + i), PlanC2S: "pass", PlanS2C: "pass", Order: "both", DMs: 3000})
+	}
+	// a session that is still used long after login: 33 s (thorough also 63 s and 125 s) of silence, then
+	// both sides send again - common timeout values of a login that forgets to disarm its deadline
+	idles := []int{33000}
+	if tier == "thorough" {
+		idles = []int{33000, 63000, 125000}
+	}
+	for i, ms := range idles {
+		add(params{Leg: "idle", API: []string{"ctx", "timeout", "url"}[i%3], Call: []byte("LA1B"), PW: []byte("x"), CallClass: "realistic", PWClass: "realistic",
+			NC2S: 600, NS2C: 600, Seed: int64(520 + i), PlanC2S: "pass", PlanS2C: "pass", Order: "both", DMs: 3000, IdleMS: ms})
 	}
 	// hostile servers
 	for i, kind := range hostileKinds {
@@ -546,7 +560,7 @@ func runLogin(o *vrt.Obs, p params) {
 				o.Count("logins_completed_only_on_retry", 1)
 			}
 			return
-		case <-time.After(stallBound + time.Duration(p.DMs)*time.Millisecond):
+		case <-time.After(stallBound + time.Duration(p.DMs+p.IdleMS)*time.Millisecond):
 		}
 		where = append(where, td.closeAll())
 		o.Count("login_attempts_stalled", 1)
@@ -618,6 +632,9 @@ func loginAttempt(o *vrt.Obs, p params, td *teardown) {
 	if p.Leg == "idle" {
 		dialTimeout = time.Duration(p.DMs) * time.Millisecond
 		until := t0.Add(dialTimeout + 1500*time.Millisecond)
+		if p.IdleMS > 0 {
+			until = t0.Add(time.Duration(p.IdleMS) * time.Millisecond)
+		}
 		pauseC = &pauseSpec{at: p.NC2S / 2, until: until}
 		pauseS = &pauseSpec{at: p.NS2C / 2, until: until}
 	}
